@@ -35,14 +35,45 @@ pub struct Prop {
 }
 
 /// tool sub-runs of the thorough tier: (property, Miri?, fuzz target, valgrind?)
+/// One case of a model-driven check with every generator decision read from `tape` (see rng::set_tape). Used by the
+/// coverage-guided `model` fuzz target and by the replay of what it finds.
+pub fn model_case(sel: &str, ctx: &mut crate::ctx::Ctx, tape: &[u8]) {
+    crate::rng::set_tape(tape);
+    let r = std::panic::catch_unwind(std::panic::AssertUnwindSafe(|| {
+        let mut r = crate::rng::Rng::new(0);
+        let idx = r.below(100_000);
+        match sel {
+            "C02" | "C03" | "C04" | "C07" => {
+                let cfg = match r.below(3) { 0 => c03::share_cfg(), 1 => crate::gen::Cfg { max_entries: 3, ..Default::default() }, _ => crate::gen::Cfg::default() };
+                let p = crate::gen::Gen::new(&mut r, cfg).packet();
+                match sel {
+                    "C02" => c02::check_one(ctx, "fuzz-tape", 0, &p),
+                    "C03" => c03::check_one(ctx, "fuzz-tape", 0, &p),
+                    "C04" => c04::check_one(ctx, "fuzz-tape", 0, &p),
+                    _ => c07::check_one(ctx, "fuzz-tape", 0, &p),
+                }
+            }
+            "C09" => c09::write_side(ctx, idx),
+            "C13" => c13::u1_case(ctx, idx),
+            "C15" => c15::history(ctx, idx),
+            _ => {}
+        }
+    }));
+    crate::rng::clear_tape();
+    if let Err(e) = r {
+        std::panic::resume_unwind(e);
+    }
+}
+
 pub fn tools_for(id: &str) -> (bool, Option<&'static str>, bool) {
     match id {
         "C01" => (true, Some("parse"), false),
+        "C02" | "C03" | "C04" | "C07" | "C09" | "C15" => (false, Some("model"), false),
         "C05" => (false, Some("framing"), false),
         "C06" => (true, None, false),
         "C11" => (false, Some("reserialise"), false),
         "C12" => (true, Some("observe"), false),
-        "C13" => (true, None, false),
+        "C13" => (true, Some("model"), false),
         "C14" => (false, Some("pipeline"), true),
         "C16" => (true, None, false),
         "C20" => (true, None, false),
